@@ -48,6 +48,9 @@ def abstract_case(draw, spec, cp):
     # submission_in_root_entry_during_start_dropped, backmp11) so that the search continues behind it
     ops = [dict(op='S', val=draw(valuation()), scripts=draw(scripts(nev, cp.get('start_scripts'), min_at=1)))]
     kinds = cp.get('kinds', ['P'])
+    if cp.get('no_restart_with_deferral') and spec.get('deferred_types'):
+        # what happens to deferred occurrences across stop()/start() is fixed by no property
+        kinds = [k for k in kinds if k != 'T'] or ['P']
     for _ in range(n):
         k = draw(st.sampled_from(kinds))
         if k == 'P':
